@@ -69,12 +69,13 @@ Eval vm_compute in
   (let s := summaries repo_graph in
    map f_name (filter (fun f => existsb (Pos.eqb (f_id f)) not_linked && negb (lock_free s (f_id f))) repo_graph)).
 
-(* violations at sites that are NOT listed in LockOrder.known_sites: must be empty -- when [C20_repo]
-   below fails, the offending sites are the ones printed here *)
-Eval vm_compute in
-  (map (fun v => (v_site v, v_held v, v_acq v))
-       (filter (fun v => negb (accepted known_sites (all_gated_with (summaries repo_graph) repo_graph) v))
-               (violations repo_graph))).
+(* violations that [check] does not accept (site not listed in LockOrder.known_sites, not excused by a
+   universal wasm gate): must be empty.  When [C20_repo] below fails these lines name the offending sites --
+   "site : holds H, then acquires L directly | via f1 -> f2 -> acquisition site'" -- and bin/check copies
+   them from the build log (between the markers) into the replay file *)
+Goal True. idtac "@@C20-VIOLATIONS-BEGIN". Abort.
+Eval vm_compute in (explain repo_graph known_sites).
+Goal True. idtac "@@C20-VIOLATIONS-END". Abort.
 
 Theorem C20_repo : check repo_graph not_linked known_sites = true.
 Proof. vm_compute. reflexivity. Qed.
